@@ -11,6 +11,9 @@ claimed = {
  "C01": dict(cat="exploration", ref="5/C01",
    text="Seeded search over write-operation sequences x kernel acceptance patterns x schedules on the real nbio code running on a simulated kernel; reference model = append-only byte log per connection (single writer) or record framing (concurrent writers); checked at every peer read and at quiescence of a fault-free fair phase. Finds lost/duplicated/reordered/interleaved bytes and short counts without error; cannot prove their absence.",
    tech="deterministic simulation: seeded scheduler + simulated kernel with short-write/EAGAIN/EINTR injection, byte-stream reference model"),
+ "C02": dict(cat="exploration", ref="5/C02",
+   text="Seeded search over the full engine configuration matrix with simulated peers (bursts around the read-buffer size, pauses, half-close/close/reset, echo and concurrent writers) on the simulated kernel; oracle: per connection the concatenation of data-callback arguments is a prefix of what the kernel model made readable and equals it at quiescence for connections that stay open or end orderly; callbacks of one connection never overlap; UDP: same connection object per remote, one callback per queued datagram with equal payload; a progress-free fair phase dominated by reads is a spinning reader.",
+   tech="deterministic simulation: seeded scheduler + simulated epoll/sockets over the configuration matrix, inbound byte-stream reference model, livelock detection"),
  "C04": dict(cat="exploration", ref="5/C04",
    text="Bounded liveness by simulation: after the generated history all faults stop, scheduling becomes fair and the peer keeps reading; at quiescence every accepted byte must have arrived while the connection is open, and a progress-free fair phase (30000 steps) is a livelock. Backlogs are created from goroutines, open/data callbacks and before epoll registration, in LT/ET/ONESHOT.",
    tech="deterministic simulation: bounded-liveness check in a fault-free fair phase after seeded fault/schedule search"),
